@@ -42,7 +42,7 @@ class RandomStyle(Style):
     def length_form(self, n):
         if self.rng.random() < self.p[0]:
             self.used.add("long-length")
-            return self.rng.choice([1, 2, 3, 4, 4, 4, 8])
+            return self.rng.choice([1, 2, 3, 4, 4, 4, 8, 9, 16, 126])
         return 0
 
     def true_octet(self):
